@@ -114,8 +114,8 @@ func NewTagged(secret string) Tagged { return NewTagged3(secret, "", secret+"p")
 func secretPair(a, b Tagged, tag string) []Doc {
 	a2, b2 := a, b
 	return []Doc{{tag + "-a", a}, {tag + "-b", b}, {tag + "-pa", &a2}, {tag + "-pb", &b2},
-		{tag + "-ma", map[string]interface{}{"t": a, "l": []Tagged{a}, "pl": []*Tagged{&a2}, "m": map[string]Tagged{"k": a}}},
-		{tag + "-mb", map[string]interface{}{"t": b, "l": []Tagged{b}, "pl": []*Tagged{&b2}, "m": map[string]Tagged{"k": b}}}}
+		{tag + "-ma", map[string]interface{}{"t": a, "l": []Tagged{a}, "pl": []*Tagged{&a2}, "m": map[string]Tagged{"k": a}, "arr": [2]Tagged{a, a}, "parr": &[1]Tagged{a}}},
+		{tag + "-mb", map[string]interface{}{"t": b, "l": []Tagged{b}, "pl": []*Tagged{&b2}, "m": map[string]Tagged{"k": b}, "arr": [2]Tagged{b, b}, "parr": &[1]Tagged{b}}}}
 }
 
 func ip(i int) *int       { return &i }
@@ -389,6 +389,10 @@ func Conts() []Doc {
 		{"nitems", NItems{i2, i1}},
 		{"arr", [3]Item{i1, i2, i3}},
 		{"arr0", [0]Item{}},
+		// arrays of other element types (the slice returned for an array has the array's own element type)
+		{"arr-if", [2]interface{}{i1, map[string]interface{}{"X": 1, "Y": "m"}}},
+		{"arr-maps", [2]map[string]interface{}{{"X": 1, "Y": "a"}, {"X": 2}}},
+		{"arr-ptr", [2]*Item{&i1, &i3}},
 		{"pitems", []*Item{&i1, nil, &i3}},
 		{"ifaces", []interface{}{i1, map[string]interface{}{"X": 1, "Y": "m"}, map[string]interface{}{"X": 2}, &i2}},
 		{"ifaces-err", []interface{}{i1, 5, i3}},
@@ -547,7 +551,8 @@ func World(name string) []Doc {
 		// all visible fields are zero; one document of the pair has zero hidden fields as well
 		z := Tagged{}
 		h := Tagged{Hidden: "s3cr3t", private: "priv", hiddenEmb: hiddenEmb{Promoted: "p"}, Inner: TagInner{Secret: "s3cr3t", low: 5}}
-		return []Doc{{"sz-a", z}, {"sz-b", h}, {"sz-pa", &z}, {"sz-pb", &h}, {"sz-ma", map[string]interface{}{"t": z, "l": []Tagged{z}}}, {"sz-mb", map[string]interface{}{"t": h, "l": []Tagged{h}}}}
+		return []Doc{{"sz-a", z}, {"sz-b", h}, {"sz-pa", &z}, {"sz-pb", &h}, {"sz-ma", map[string]interface{}{"t": z, "l": []Tagged{z}, "arr": [2]Tagged{z, z}, "arri": [1]TagInner{z.Inner}, "parr": &[1]Tagged{z}}},
+			{"sz-mb", map[string]interface{}{"t": h, "l": []Tagged{h}, "arr": [2]Tagged{h, h}, "arri": [1]TagInner{h.Inner}, "parr": &[1]Tagged{h}}}}
 	case "absent":
 		return []Doc{{"absent", Absent()}, {"absent-b", AbsentB()}, {"absent-again", Absent()}}
 	case "conts":
